@@ -82,6 +82,18 @@ type Ctx struct {
 	warn     []string
 	curProp  string
 	specErrors int
+	cands      []*Term // instantiation candidates: integer parameters, loop counters (and +1)
+	recDefs    map[string]*recDef
+	recBuilding map[string]*recDef
+}
+
+// addCand registers an integer-valued program variable as an instantiation
+// candidate for quantified hypotheses (see inst.go).
+func (c *Ctx) addCand(v *Term, t types.Type) {
+	if _, _, ok := intInfo(t); !ok || v == nil {
+		return
+	}
+	c.cands = append(c.cands, v, c.arith(token.ADD, v, c.intConst(big.NewInt(1), t), t))
 }
 
 type Obligation struct {
